@@ -223,6 +223,7 @@ Proof.
     + destruct (place p k s0) as [s1 e1] eqn:E1. cbn [fst snd]. destruct (place_T _ _ _ _ _ E1) as [T1 U1].
       split; [exact (T_trans _ _ _ _ _ T0 T1) | apply Down_up; congruence].
     + destruct (fire_result _ _ _ _) as [s1 e1] eqn:E1. cbn [fst snd].
+      change (F (ECall (ncalls s) k :: e1)) with (F e1).
       destruct (fire_result_T _ _ _ _ _ _ E1) as (P & N & U). cbn [ncalls set_ncalls up] in *.
       destruct (HD Hup) as (A & B & CA & CB). split.
       * split; [lia|]. eapply perm_trans; [exact P|].
@@ -237,16 +238,13 @@ Proof.
   - (* deliver *) destruct (deliver_n d n s) as [s' e] eqn:E. cbn [fst snd]. eapply deliver_n_T; eauto.
   - (* fire *) destruct (nth_error (pending s) i) as [[[me tag] call]|] eqn:En; cbn [fst snd].
     + destruct (up s) eqn:Hup.
-      * destruct o; cbn [fst snd];
-          try (split; [apply T_same_outs; destruct me; reflexivity | apply Down_up; destruct me; cbn; auto]).
-        -- destruct (close_by me _) as [s1 e1] eqn:E1. cbn [fst snd].
-           destruct (close_by_T _ _ _ _ E1) as (T1 & _ & D1). split; auto.
-           change (EFire me call :: e1) with ([EFire me call] ++ e1). eapply T_trans; [|exact T1].
-           apply T_same_outs; destruct me; reflexivity.
-        -- destruct (close_by me _) as [s1 e1] eqn:E1. cbn [fst snd].
-           destruct (close_by_T _ _ _ _ E1) as (T1 & _ & D1). split; auto.
-           change (EFire me call :: e1) with ([EFire me call] ++ e1). eapply T_trans; [|exact T1].
-           apply T_same_outs; destruct me; reflexivity.
+      * destruct (fatal_res (out_res o call)).
+        -- destruct (close_by me _) as [s2 e2] eqn:E2. cbn [fst snd].
+           destruct (close_by_T _ _ _ _ E2) as (T1 & _ & D1). split; [|exact D1].
+           change (EFire me call o :: EProduced call (out_res o call) :: e2)
+             with ([EFire me call o; EProduced call (out_res o call)] ++ e2).
+           eapply T_trans; [|exact T1]. apply T_same_outs; destruct me; reflexivity.
+        -- cbn [fst snd]. split; [apply T_same_outs; destruct me; reflexivity | apply Down_up; destruct me; cbn; auto].
       * split; [apply T_same_outs; reflexivity|]. intros U. destruct (HD Hup) as (A & B & CA & CB). cbn. auto.
     + split; [apply T_same_outs; reflexivity | exact HD].
   - (* disconnect *) destruct (up s) eqn:Hup.
@@ -402,8 +400,9 @@ Proof.
   - destruct (deliver_n d n s) as [s' e] eqn:E. cbn [fst]. eapply deliver_n_K; eauto.
   - destruct (nth_error (pending s) i) as [[[me tag] call]|]; cbn [fst]; auto.
     destruct (up s).
-    + destruct o; cbn [fst]; try (eapply K_same; [| | | |exact HK]; destruct me; reflexivity);
-        (destruct (close_by me _) as [s1 e1] eqn:E1; cbn [fst]; eapply close_by_K; eauto).
+    + destruct (fatal_res (out_res o call)).
+      * destruct (close_by me _) as [s1 e1] eqn:E1. cbn [fst]. eapply close_by_K; eauto.
+      * cbn [fst]. eapply K_same; [| | | |exact HK]; destruct me; reflexivity.
     + cbn [fst]. eapply K_same; [| | | |exact HK]; reflexivity.
   - destruct (up s); cbn [fst]; auto. pose proof (lose_K s) as HL. destruct (lose s) as [s1 e1]. exact HL.
 Qed.
@@ -445,8 +444,9 @@ Proof. vm_compute. split; reflexivity. Qed.
 Lemma call_after_loss : forall s p k f, up s = false ->
   let r := step s (OCall p k f) in
   up (fst r) = false /\ outA (fst r) = outA s /\ outB (fst r) = outB s /\
-  (snd r = [EResult (ncalls s) RLost] \/
-   snd r = [EResult (ncalls s) RLost; ENested (S (ncalls s)); EResult (S (ncalls s)) RLost]).
+  (snd r = [ECall (ncalls s) k; EResult (ncalls s) RLost] \/
+   snd r = [ECall (ncalls s) k; EResult (ncalls s) RLost;
+            ENested (S (ncalls s)); ECall (S (ncalls s)) Know; EResult (S (ncalls s)) RLost]).
 Proof.
   intros s p k f U. cbn [step]. rewrite U. unfold fire_result, nested, place.
   destruct f; cbn [follows set_follows set_ncalls up ncalls].
